@@ -69,7 +69,7 @@ def main():
         ids = sorted(i for i in ms if i.startswith('bp-'))
     os.makedirs(SCR, exist_ok=True)
     results = {}
-    out = os.path.join(ROOT, 'selftest', 'mutant_results_%s.json' % tier)
+    out = os.environ.get('MUT_OUT') or os.path.join(ROOT, 'selftest', 'mutant_results_%s.json' % tier)
     def save():
         old = {}
         if os.path.exists(out):
